@@ -9,6 +9,7 @@ import DarsiaModel.Basic
 import DarsiaModel.Correction
 import DarsiaModel.Corrections
 import DarsiaModel.CorrHeap
+import DarsiaModel.Corrections2
 open Darsia Darsia.Correction Darsia.Corrections Darsia.Affine Darsia.Warp
 
 abbrev A := List Int
@@ -137,4 +138,52 @@ def handle3 : List String → Option String
       pure (s!"{showBool (r.2 == 0)} | [{showInts ((r.1.buf 0).get 0)}] | [{showInts ((r.1.buf r.2).get 0)}]")) rest
   | _ => none
 
-def main : IO Unit := runDriver fun toks => ((handle toks).orElse fun _ => handle2 toks).orElse fun _ => handle3 toks
+/-! ### round 4: curvature, illumination, active drift -/
+
+def pBS : P BS := do
+  let hb ← P.rat; let hs ← P.rat; let ho ← P.rat; let vb ← P.rat; let vs ← P.rat; let vo ← P.rat
+  pure ⟨hb, hs, ho, vb, vs, vo⟩
+def pOptBS : P (Option BS) := do
+  let f ← P.bool
+  if f then (do let c ← pBS; pure (some c)) else pure none
+
+def handle4 : List String → Option String
+  | "tcoords" :: rest => runP (do
+      let c ← pBS; let nx ← P.nat; let ny ← P.nat; P.done
+      let pts := (List.range ny).flatMap fun (i : Nat) => (List.range nx).map fun (j : Nat) => transformCoords c nx ny j i
+      pure (showRats (pts.map (·.1)) ++ " | " ++ showRats (pts.map (·.2)))) rest
+  | "curv" :: rest => runP (do
+      -- curv <resize factor> <init?> <bulge?> <stretch?> <nhist> (n0 n1 vals)* n0 n1 vals ; order-0 interpolation;
+      -- cells whose value depends on which side of a half-integer a resampling coordinate falls are printed as `?`
+      let f ← P.rat; let ini ← pOptBS; let bul ← pOptBS; let str ← pOptBS
+      let hist ← P.list pArr2; let a ← pArr2; P.done
+      let cfg0 : CurvCfg := ⟨ini, false, bul, str⟩
+      let cfg := if f = 1 then cfg0 else adaptCfg f cfg0
+      let eps : Rat := 1 / 1000
+      let r0 := curvRun interpNearest id cfg none hist a
+      let rp := curvRun (interpNearestShift eps) id cfg none hist a
+      let rm := curvRun (interpNearestShift (-eps)) id cfg none hist a
+      let cells := (List.range r0.n0).flatMap fun (i : Nat) => (List.range r0.n1).map fun (j : Nat) =>
+        let v := r0.get i j
+        if rp.n0 = r0.n0 ∧ rp.n1 = r0.n1 ∧ rp.get i j = v ∧ rm.get i j = v then showRat v else "?"
+      pure (s!"{r0.n0} {r0.n1} | " ++ " ".intercalate cells)) rest
+  | "illum" :: rest => runP (do
+      -- illum <rgb> <dt> n0 n1 <3*n0*n1 values, channel fastest> <nscal> (n0*n1 values)*
+      let rgb ← P.bool; let dt ← pDT; let n0 ← P.nat; let n1 ← P.nat
+      let vals ← P.rep P.rat (3 * n0 * n1); let sc ← P.list (P.rep P.rat (n0 * n1)); P.done
+      let a : Arr2C := ⟨dt, n0, n1, fun i j ch => vals.getD (((i * n1 + j) * 3).toNat + ch) 0⟩
+      let scal := fun (k : Nat) (i j : Int) => (sc.getD k []).getD (i * n1 + j).toNat 0
+      let r := illumCorr rgb scal a
+      let out := (List.range n0).flatMap fun (i : Nat) => (List.range n1).flatMap fun (j : Nat) =>
+        (List.range 3).map fun ch => r.get i j ch
+      pure (s!"{showDT r.dt} {n0} {n1} | " ++ showRats out)) rest
+  | "drift" :: "active" :: rest => runP (do
+      -- drift active <found> tx ty b0 b1 <tarr>
+      let found ← P.bool; let tx ← P.int; let ty ← P.int; let b0 ← P.nat; let b1 ← P.nat; let a ← pTArr; P.done
+      match driftActive (fun _ => if found then some (tx, ty) else none) b0 b1 a with
+      | .ok r => pure (showTArr r)
+      | .error er => pure er.show) rest
+  | _ => none
+
+def main : IO Unit := runDriver fun toks =>
+  (((handle4 toks).orElse fun _ => handle toks).orElse fun _ => handle2 toks).orElse fun _ => handle3 toks
